@@ -6,6 +6,7 @@
 #include <etl/_type_traits/common_type.hpp>
 #include <etl/_type_traits/is_integral.hpp>
 #include <etl/_type_traits/is_same.hpp>
+#include <etl/_type_traits/make_unsigned.hpp>
 
 namespace etl {
 
@@ -19,7 +20,15 @@ template <typename M, typename N>
     requires(is_integral_v<M> and not is_same_v<M, bool> and is_integral_v<N> and not is_same_v<N, bool>)
 [[nodiscard]] constexpr auto lcm(M m, N n) -> common_type_t<M, N>
 {
-    return (m / gcd(m, n)) * n;
+    using R = common_type_t<M, N>;
+    using U = make_unsigned_t<R>;
+
+    if (m == 0 or n == 0) {
+        return R(0);
+    }
+    auto const a = etl::detail::gcd_abs<U>(m);
+    auto const b = etl::detail::gcd_abs<U>(n);
+    return static_cast<R>(static_cast<U>(a / etl::gcd(a, b)) * b);
 }
 
 } // namespace etl
